@@ -68,12 +68,12 @@ def structures(cfgname, tier):
     if tier == "quick":
         counts = [1, 2, 12]
         labels = ["", "o"]
-        prefixes = [("", 0), (pre, 0)]
+        prefixes = [("", 0), (pre, 0), (pre, 12)]
         charges = [0, 1, -1]
     else:
         counts = [1, 2, 3, 10, 12]
         labels = ["", "o", "p", "m"]
-        prefixes = [("", 0), (pre, 0), (pre, 2)]
+        prefixes = [("", 0), (pre, 0), (pre, 2), (pre, 10), (pre, 12)]
         charges = [0, 1, 2, 3, -1, -2]
     if cfgname == "uclchem":
         labels = [""]  # that configuration declares no ortho/para labels
